@@ -288,7 +288,7 @@ def run(tier: str, seed: int) -> Report:
                 a["detail"] = {"meta": t["meta"], "B": t["B"], "start_state": start,
                                "requests": [s["hex"] for s in t["steps"][lo:idx]],
                                "failing": {k: t["steps"][idx - 1][k] for k in ("hex", "rhex", "x", "s", "l", "pk")},
-                               "mc_model": R.concretise and t["meta"].get("mc", False)}
+                               "mc_model": bool(t["meta"].get("mc", False))}
     for a in agg.values():
         a["detail"]["occurrences"] = a["n"]
         rep.violate(a["label"], a["sig"], a["detail"])
@@ -363,6 +363,9 @@ def run(tier: str, seed: int) -> Report:
         labels = sorted({lab for t in mutants[name] for _i, lab in sv[t["id"]][1]})
         mres[name] = labels
         if not any(lab.startswith(prefix) for lab in labels):
+            if rep.violations:  # the tree under test is itself broken: report that, not the self-test
+                mres[name] = labels + ["inconclusive: the tree under test already violates the contract"]
+                continue
             raise Machinery(f"binding self-test: server mutant '{name}' not rejected with a {prefix} clause "
                             f"(labels: {labels}): the contract / corpus is too weak")
     rep.extra["binding_selftest"] = {"corrupted": cor, "server_mutants": mres}
